@@ -153,8 +153,11 @@ static bool init_from_temporary(D& drv, const RSDriverParam& src)
   return ok;
 }
 
+// TZD directive: the process time zone is a POSIX rule with daylight saving (its standard offset is the tz field of the D / K lines)
+static std::string g_tz_rule;
 static void set_tz(long tz)
 {
+  if (!g_tz_rule.empty()) { setenv("TZ", g_tz_rule.c_str(), 1); tzset(); return; }
   char buf[64];
   long a = tz < 0 ? -tz : tz;
   snprintf(buf, sizeof buf, "VRF%c%ld:%02ld:%02ld", tz >= 0 ? '-' : '+', a / 3600, (a % 3600) / 60, a % 60);
@@ -228,6 +231,22 @@ static void kernel(const std::vector<std::string>& t)
   {
     set_tz(L(2)); auto b = unhex(t[3]);
     fprintf(OUT, "k parse_ymd %llu\n", (unsigned long long)parseTimeYMD((const RSTimestampYMD*)b.data()));
+  }
+  else if (k == "parse_ymdz" || k == "create_ymdz")
+  {
+    // K parse_ymdz <std offset> <hex> <posix rule> <n> <periods..> / K create_ymdz <std offset> <us> <posix rule> ...: zone with daylight saving
+    g_tz_rule = t[4]; set_tz(L(2));
+    if (k == "parse_ymdz")
+    {
+      auto b = unhex(t[3]);
+      fprintf(OUT, "k parse_ymd %llu\n", (unsigned long long)parseTimeYMD((const RSTimestampYMD*)b.data()));
+    }
+    else
+    {
+      RSTimestampYMD y; createTimeYMD(strtoull(t[3].c_str(), 0, 10), &y);
+      fputs("k create_ymd ", OUT); hexout((uint8_t*)&y, sizeof y); fputs("\n", OUT);
+    }
+    g_tz_rule.clear();
   }
   else if (k == "create_ymd")
   {
@@ -526,6 +545,7 @@ static int run_scenario(std::vector<std::string>& lines)
     auto I = [&](size_t i) { return atol(t[i].c_str()); };
     { std::lock_guard<std::mutex> lg(g_wd_mtx); g_wd_cmd = line.substr(0, 40); }
     if (c == "B") continue;
+    else if (c == "TZD") g_tz_rule = (t.size() > 1 && t[1] != "-") ? t[1] : "";      // TZD <posix rule> <n> <a1 b1 ...>: see the model driver
     else if (c == "WD")
     {
       // WD secs : from here on, a call that has not returned after secs seconds is a hang (deadlock / a stop() that never returns)
@@ -941,7 +961,7 @@ int main(int argc, char** argv)
     if (line.empty()) continue;
     if (line[0] == 'S' && line.size() > 1 && line[1] == ' ')
     {
-      in_scn = true; cur.clear(); name = line;
+      in_scn = true; cur.clear(); name = line; g_tz_rule.clear();
       fprintf(OUT, "%s\n", line.c_str());
       continue;
     }
@@ -972,6 +992,7 @@ int main(int argc, char** argv)
     {
       auto t = split_ws(line);
       if (!t.empty() && t[0] == "K") kernel(t);
+      else if (!t.empty() && t[0] == "TZD") g_tz_rule = (t.size() > 1 && t[1] != "-") ? t[1] : "";
     }
   }
   fclose(OUT);
